@@ -315,6 +315,15 @@ carquet_status_t carquet_page_writer_add_values(
             &writer->def_levels_buffer, def_levels,
             (size_t)num_values * sizeof(int16_t));
         if (lstatus != CARQUET_OK) return lstatus;
+    } else if (writer->max_def_level > 0) {
+        /* No definition levels supplied for a nullable column: every value is
+         * present. The page still needs its level block. */
+        for (int64_t i = 0; i < num_values; i++) {
+            int16_t level = writer->max_def_level;
+            carquet_status_t lstatus = carquet_buffer_append(
+                &writer->def_levels_buffer, &level, sizeof(level));
+            if (lstatus != CARQUET_OK) return lstatus;
+        }
     }
 
     if (writer->max_rep_level > 0 && rep_levels) {
